@@ -598,6 +598,25 @@ def _invariants(chk, facts):
                f"{sorted(set(bad_callers))} apply Position::union to an invisible position: the result has a zero start but is not invisible(), and rendering it underflows")
     except AnchorError as e:
         chk.anchor_fail("R-C03-1", e)
+    # I5: `branch_point - 1` in ConstrBuilder::branch (a trace message, but it panics in debug builds): every call of branch() is dominated by
+    # a call of branch_point() in the same body, which increments the counter first
+    bad_br = []
+    n_br = 0
+    for b in mir.fns.values():
+        if "::tests::" in b.path or b.path.endswith("::tests"):
+            continue
+        brs = [bb.idx for bb, t in b.calls() if t.callee.endswith("ConstrBuilder::branch")]
+        if not brs:
+            continue
+        pts = [bb.idx for bb, t in b.calls() if t.callee.endswith("ConstrBuilder::branch_point")]
+        dom = b.dominators()
+        for x in brs:
+            n_br += 1
+            if not any(p_ in dom.get(x, ()) for p_ in pts):
+                bad_br.append(b.path)
+    chk.ob("R-C03-1", "inv:branch-after-branch_point", not bad_br and n_br >= 1,
+           f"every call of ConstrBuilder::branch ({n_br}) is dominated by a call of branch_point, which makes the counter positive" if not bad_br and n_br >= 1 else
+           f"ConstrBuilder::branch is called without a dominating branch_point in {sorted(set(bad_br))[:2] or 'no caller found'}: `branch_point - 1` underflows")
     # I4: the generator panics when the Python form of a class or parent name is not a type (`class name should be type`, `Expected type in
     # parent`): StringName::to_py must yield a type for every name - each arm builds core_type(..), or hands a *non-empty* list of members on
     # (a bare `Union`, the name of a user class, must not be taken for the union type constructor: its union is empty and renders as nothing)
